@@ -25,6 +25,7 @@
 import NutsProofs.Lemmas.Conc
 import NutsGen.Facts
 import NutsProofs.Facts
+import NutsProofs.Pins.Locks
 namespace NutsProofs.C14
 open Nuts.Model.Conc NutsProofs.Conc
 
